@@ -4,6 +4,12 @@ PENDING = "check not built yet in this session (claimed by DESIGN.md section 6; 
 NOT_APPLICABLE = {("C%02d" % i): PENDING for i in range(1, 21)}
 
 META = {
+    "C09": {
+        "text": "Invariant theorem over every sequence of Add/Update/Get/Push/Pop/Reset/Last from a fresh cache of any capacity: used size = sum of stored lengths, total <= capacity, every stored value within its symbol's limit, each symbol in at most one scope, size entries cover live symbols; plus: a rejected operation returns exactly the previous state (Update's blank-and-restore is modelled and proved to restore), Pop releases exactly the top scope, no Go panic site reachable. Tied to cache/cache.go by step-by-step comparison of all exported fields on generated histories.",
+        "design_ref": "DESIGN.md section 6 C09",
+        "note": "Trusted: Coq kernel, harness. Hypothesis op_bounded (value length + capacity < 2^32) excludes the uint32 wrap of the usage counter. Go maps are modelled as association lists and compared sorted.",
+        "technique": "Coq proof (invariant by induction over operation lists) + stepwise model/implementation correspondence by vm_compute",
+    },
     "C14": {
         "text": "Round-trip theorems for every integer < 2^32, every symbol of 1..255 bytes, every instruction and every non-empty program (decode(encode p) = p, exact consumption, disassembler listing, both encoders agree), proved in Coq over an executable model of vm/vm.go, vm/debug.go and the assembler's writers; the model is tied to the code by regenerated opcode tables and a differential run of the real encoders/decoders on generated programs evaluated with vm_compute.",
         "design_ref": "DESIGN.md section 6 C14",
